@@ -10,6 +10,12 @@ CHECKS = {
    text="TLC exhausts all interleavings of the synchronisation operations of small programs (<=4 threads) for FIFO/lossless/capacity/no-stuck, and every edge of those state graphs is replayed on the real BlockingQueue; in addition all schedules of the real object with <=2 preemptions are enumerated (stateless DFS) and each recorded execution must be linearizable w.r.t. the Abs queue. Ring: the four cross-thread memory orders are read from ring_buffer.hpp and TLC checks data-race freedom/FIFO/capacity of the SPSC protocol under them; real rings are checked for linearizability and under ThreadSanitizer.",
    note="Trusted: TLC, the pthread interposition scheduler (schedule points only at pthread/clock calls: atomics between two sync operations execute atomically), ThreadSanitizer, the C++11 fragment modelled in SpscRing.tla (release/acquire/relaxed on two atomics; no fences, no consume). Bounds: programs of <=5 threads / <=3 calls each, ring Cap<=3, <=4 pushes/pops.",
    design="§4 C10"),
+ "C09": dict(
+   technique="TLA+ Impl spec ThreadPool.tla (one action per critical section) model-checked by TLC; the same programs executed on the real ThreadPool under a deterministic pthread-interposing scheduler (preemption-bounded stateless DFS, seeded random, TLC-counterexample-directed plans); recorded traces validated by TLC against the Abs oracle PoolTrace.tla",
+   category="model_checking",
+   text="TLC exhausts all interleavings of the pool's critical sections for small programs (<=3 submitters, owner drain/stop/destroy at any moment) against ThreadCap, ExactlyOnce, StopComplete, NoJoinableLeft, NoStuck; the real pool runs the same programs under a scheduler that controls every pthread synchronisation point, and every recorded execution must be a behaviour of the Abs pool (exactly-once start, refusal only when full/draining/shut down, stop/destroy return only after accepted tasks finished, worker count <= max, futures ready).",
+   note="Trusted: TLC, the interposition scheduler (schedule points at pthread/clock calls only), virtual time for idle timeouts and polling sleeps. Bounds: <=3 submitters x <=3 submissions, max<=3 workers, DFS preemption bound 1 (quick) / 2 (thorough), truncated at a fixed number of executions. DETACHED shutdown mode and destruction concurrent with submissions (a caller bug) are not explored.",
+   design="§4 C09"),
 }
 
 NOT_APPLICABLE = {
